@@ -357,6 +357,10 @@ def impl_case(case):
            "direct": impl_direct(case["base"])}
     if case.get("planted"):
         out["basic_ok"] = impl_basic_ok(case["base"])
+    if case.get("stream") == "collide":
+        # the model's sort key is exercised on the rewrites as well: a wrong (e.g. too coarse) key in the
+        # implementation then also shows up as a model/implementation disagreement
+        out["direct_rw"] = [impl_direct(y) for y in case["rewrites"][:3]]
     return out
 
 
@@ -661,6 +665,75 @@ def gen_case(rng, stream):
     return {"base": base, "rewrites": rewrites, "planted": planted, "stream": stream, "depth": depth_of(tree) }
 
 
+def rand_nest(rng, items, depth):
+    """a random bracketing of the given tags: members (tags / sub-groups) containing each item exactly once"""
+    items = list(items)
+    rng.shuffle(items)
+    if depth <= 0 or len(items) == 0:
+        return [["T", x] for x in items]
+    k = rng.randint(1, len(items))
+    cuts = sorted(rng.sample(range(1, len(items)), k - 1)) if k > 1 else []
+    chunks = [items[a:b] for a, b in zip([0] + cuts, cuts + [len(items)])]
+    out = []
+    for ch in chunks:
+        if len(ch) == 1 and rng.random() < 0.55:
+            out.append(["T", ch[0]])
+        else:
+            out.append(["G", rand_nest(rng, ch, depth - 1)])
+    return out
+
+
+COLLIDE_TAGS = PLAIN[:9] + ["Label/abc", "Label/ABC", "Label/x1", "ID/abc", "Item/Abc", "Parameter-value/1.5"]
+
+
+def near_variant(rng, tags, nd):
+    """a group that is NOT a copy but collides with the family under a coarser notion of equality: other nesting of
+    the same tags, one value/tag exchanged, or one member repeated / dropped"""
+    x = rng.random()
+    tags = list(tags)
+    if x < 0.65:
+        pass
+    elif x < 0.8:
+        tags[rng.randrange(len(tags))] = rng.choice(COLLIDE_TAGS)
+    elif x < 0.9:
+        tags.append(rng.choice(tags))
+    elif len(tags) > 1:
+        tags.pop(rng.randrange(len(tags)))
+    return ["G", rand_nest(rng, tags, rng.choice(nd))]
+
+
+def gen_collide(rng):
+    """sibling lists of >= 3 groups with colliding coarse keys: two copies of one group (members reordered,
+    respelled when rendered) next to groups with the same flattened tags but another nesting (and other near
+    misses), at the top level or one / two levels down.  Whatever the written order and spelling, the copies must be
+    reported and the code multiset must not change."""
+    wrap = rng.choice([0, 0, 1, 1, 2])
+    nd = [d for d in (1, 2, 2, 3) if d <= 3 - wrap]            # keeps the whole annotation at depth <= 4
+    tags = rng.sample(COLLIDE_TAGS, rng.randint(1, 4))
+    g = ["G", rand_nest(rng, tags, rng.choice(nd))]
+    sibs = [g, ["G", shuffle_tree(rng, copy.deepcopy(g[1]), 0.9)]]
+    if rng.random() < 0.2:
+        sibs.append(["G", shuffle_tree(rng, copy.deepcopy(g[1]), 0.9)])
+    for _ in range(rng.randint(1, 4)):
+        sibs.append(near_variant(rng, tags, nd))
+    for _ in range(rng.randint(0, 2)):
+        sibs.append(["T", rng.choice(PLAIN)])
+    rng.shuffle(sibs)
+    tree = sibs
+    for _ in range(wrap):
+        tree = [["G", tree]] + [["T", rng.choice(PLAIN[9:])] for _ in range(rng.randint(0, 1))]
+        if rng.random() < 0.5:
+            tree.append(near_variant(rng, tags, [1]))
+        rng.shuffle(tree)
+    base = render(rng, tree, respell=rng.random() < 0.4, blanks=rng.random() < 0.3)
+    rewrites = []
+    for _ in range(8):
+        ops = rng.sample(["perm", "perm", "spell", "blank"], rng.randint(1, 3))
+        t2 = shuffle_tree(rng, tree, 0.8) if "perm" in ops else tree
+        rewrites.append(render(rng, t2, respell="spell" in ops, blanks="blank" in ops))
+    return {"base": base, "rewrites": rewrites, "planted": "G", "stream": "collide", "depth": depth_of(tree)}
+
+
 MALFORMED = ["Red,,Blue", "Red,", ",Red", "(Red", "Red)", "Red (Blue)", "(Red)(Blue)", "Red~Blue", "Red,[Blue", "()",
              "(),()", "(()),(())", "((),Red),((),Red)", "Red,()", "(Red,(Blue,()))", "Red//Blue", "/Red", "Red/",
              "Red, {col}", "(Red,Blue))", "((Red,Blue)", "Red,  ,Blue", "a1:Red", "xx:Red,Red", "Label/#", "Re$d, Red",
@@ -722,6 +795,14 @@ CORPUS = [
     {"base": "(Event-context, Red), (Blue, Event-context)", "rewrites": ["(Blue,Event-context),(Red,Event-context)"],
      "planted": None, "stream": "corpus", "depth": 1},
     {"base": "(),()", "rewrites": ["( ) , ( )"], "planted": None, "stream": "malformed", "depth": 1},
+    # regression: siblings with the same flattened tags but different nesting between two copies (a sort key that
+    # forgets nesting separates the copies; Props/C04.v C04_dup_invariant_refuted_flat_key)
+    {"base": "(Blue,(Red)),((Red,Blue)),((Red),Blue)", "rewrites": ["(Blue,(Red)),((Red,Blue)),(Blue,(Red))"],
+     "planted": "G", "stream": "collide", "depth": 2},
+    {"base": "(Green,(Blue,(Red))),(Green,((Red,Blue))),(Green,((Red),Blue))",
+     "rewrites": ["((Blue,(Red)),Green),(Green,((Red,Blue))),((Blue,(Red)),Green)"], "planted": "G", "stream": "collide", "depth": 3},
+    {"base": "(Label/A,(Red)),(Label/A,Red),(Label/a,(Red))", "rewrites": ["(Label/A,(Red)),(Label/a,(Red)),(Label/A,Red)"],
+     "planted": "G", "stream": "collide", "depth": 2},
 ]
 
 
@@ -833,6 +914,8 @@ def run(tier, seed, res, model_ok=True, proof_ok=True):
     streams = ["valid"] * 3 + ["temporal"] * 3 + ["case"] * 2 + ["invalid"] * 2 + ["planted"] * 3
     for i in range(n * len(streams)):
         cases.append(gen_case(rng, streams[i % len(streams)]))
+    for _ in range(n * 3):
+        cases.append(gen_collide(rng))
     for _ in range(n * 2):
         cases.append(gen_malformed(rng))
     spellings()  # build before forking
@@ -846,7 +929,7 @@ def run(tier, seed, res, model_ok=True, proof_ok=True):
 
     dis = 0
     if model_ok:
-        dis = correspond([r["direct"] for r in out], res, counts)
+        dis = correspond([r["direct"] for r in out] + [d for r in out for d in r.get("direct_rw", [])], res, counts)
 
     hist = Counter(c["stream"] for c in cases)
     dhist = Counter("depth%d" % c["depth"] for c in cases)
@@ -858,8 +941,10 @@ def run(tier, seed, res, model_ok=True, proof_ok=True):
         "rule": "corpus (refuted witnesses, regressions) + generated annotations over real 8.3.0 tags in five streams "
                 "(valid / temporal+Def / case-variant values / invalid tags / planted duplicates, depth <= 4, each with 8 "
                 "rewrites: sibling permutation at any level, respelling by short/partial/long path and random case of the "
-                "tag name, re-blanking) + a malformed-text stream with re-blanking only; non-trivial = the base has a "
-                "group or at least two members",
+                "tag name, re-blanking) + a collision stream (two copies of a group written in different member order / "
+                "spelling among >= 3 sibling groups that share the flattened tags but differ in nesting, or differ in one "
+                "member, at depth 1-3; direct-call correspondence also on 3 rewrites each) + a malformed-text stream with "
+                "re-blanking only; non-trivial = the base has a group or at least two members",
         "samples": [cases[0]["base"], cases[len(CORPUS) + 1]["base"], cases[len(CORPUS) + 12]["rewrites"][0], cases[-1]["base"]],
         "exhaustive": False,
         "disagreements_checked": dis,
